@@ -703,6 +703,9 @@ def shrink_mapping(d: dict[str, Any], strict: bool, label: str, key: str, budget
 # ----------------------------------------------------------------------------------------------------------------
 
 CORPUS: list[tuple[str, str]] = [
+    ("version", "1.0.po\u017ft1"), ("version", "2!1.2.PO\u017fT3.dev1"), ("version", "1.0prev\u0131ew2"), ("version", "1.0PREV\u0130EW2"), ("version", "1.0-po\u017ft-2+a.1"),
+    ("vconstraint", ">=1.0.po\u017ft1,<2"), ("vconstraint", "~=1.0prev\u0131ew2"), ("marker", 'python_full_version >= "3.8.po\u017ft1"'),
+    ("requirement", "foo>=1.0.po\u017ft1"), ("dependency", "foo (>=1.0.po\u017ft1) ; python_version >= \"3.8\""),
     ("dependency", "a" * 300 + ".tar.gz"), ("dependency", "a" * 300 + ".whl"), ("dependency", "foo @ " + "a" * 300 + ".tar.gz"),
     ("marker", "os_name == 'a\"b'"), ("marker", "os_name == 'a\\'"), ("marker", 'os_name == "a\\"\'b"'), ("marker", "os_name == 'a\\' and os_name != 'b'"),
     ("marker", "os_name == 'a\\\\b'"), ("marker", 'extra != "a" and extra != "b"'), ("requirement", "foo ; os_name == 'a\"b'"), ("dependency", "foo ; extra != 'a\"b'"),
